@@ -3,6 +3,7 @@ import OrbitModel.Proofs.Uvarint
 import OrbitModel.Proofs.GenEqFrame
 import OrbitModel.Proofs.Connect
 import OrbitModel.Proofs.GenEqConnect
+import OrbitModel.Proofs.GenEqWatch
 /-!
 # C20 — transport adapters deliver each payload once, intact, attributed to its sender
 -/
@@ -84,5 +85,11 @@ theorem connect_order_tied_to_go_text : Gen.connectOrder = Order.connect := gen_
 theorem a_lock_released_around_subscribe_would_deliver_twice :
     (Connect.runNarrow { callers := [(.check, false), (.check, false)] } [0, 1, 0, 1, 0, 1]).st.subscriptions = 2 :=
   Connect.narrowed_lock_subscribes_twice
+
+/-- a node that closes its store leaves the topic: the adapter closes its subscription of the
+underlying pubsub (Go text of this run; finding F39) — without it no membership change ever reaches
+the other watchers, whatever `peersDiff` does with the snapshots -/
+theorem watcher_closes_its_subscription_tied_to_go_text : Gen.watchMessagesOrder = Order.watchMessages :=
+  gen_watchMessages_order
 
 end Orbit.C20
